@@ -451,6 +451,11 @@ def mc_statetable(res, pid, tier):
         res.violation("bounded model MC_StateTable.tla: " + r["error"][:500], dict(kind="mc"))
     elif not r["finished"]:
         res.cov["inconclusive"] += 1
+    # vacuity guard: an order-dependent reduce/reduce rule ("the candidate met last wins") must be refuted
+    r2 = core.run_tlc("MC_StateTable", cfg, dict(GRAMMARS=gf, VARIANT="lastwins"), res.wd, timeout=900, workers=4, heap="4g")
+    res.notes["mc_statetable_mutation_sanity"] = dict(variant="lastwins", refuted=bool(r2["error"]))
+    if not r2["error"] and not res.violations:
+        raise core.ToolError("vacuity: the order-dependent reduce/reduce rule was not refuted by MC_StateTable")
 
 
 def main(pid, tier, replay=None):
